@@ -8,7 +8,13 @@ RULE = ("G1 with-programs (generator / coroutine / async generator) observed at 
         "manager occurs, in order, with the right obj and is_async; there is an is_exiting entry (last, right obj) iff an exit "
         "call is in progress; any extra entry's obj is the manager this frame is entering/exiting right now; no warning, no "
         "error. A program is non-trivial when >= 1 observation had >= 2 active managers or was made during an "
-        "exception-path exit; distinct = distinct IR.")
+        "exception-path exit, or an injected fault fired. Fault leg: at one suspension point per program, a "
+        "sys.settrace injector raises at (a stride of <= 40 of) every line event executed inside the trickery analysis "
+        "(stackscope._lowlevel* functions): contexts_active_in_frame must never raise; with an InspectionWarning the result "
+        "must obey the same over-approximation relation, without one (the interpreter absorbed the exception) it must be "
+        "exact. Mode leg: generated sequences of set_trickery_enabled(True|False|None) and extractions issued from 1-3 "
+        "threads; the mode in force (read off a reference frame: varname/start_line populated or not) must equal the last "
+        "value set, None meaning trickery on CPython. distinct = distinct IR.")
 ASSUMPTIONS = [
     "running frames are outside the fallback's documented reach on CPython and are not asserted",
     "managers' __exit__/__aexit__ are ordinary methods named __exit__/__aexit__ (the documented precondition of the fallback)",
@@ -16,7 +22,8 @@ ASSUMPTIONS = [
 
 CFG = {
     "module": "checks.c20",
-    "modes": ["ref"],
+    "modes": ["ref", "inject"],
+    "inject": [1, 16],      # per program: 1 suspension point gets a sweep of <= 40 injected faults
     "prog_kinds": ["gen", "coro", "agen"],
     "kinds_violation": ["ref."],
 }
@@ -27,12 +34,70 @@ def classify(prog, stats, feats):
     for k in ("ref.ge2", "ref.exiting", "ref.exiting_exc_path", "ref.has_extra", "ref.nonempty"):
         if stats.get(k):
             classes.add("obs." + k)
-    return bool(stats.get("ref.ge2") or stats.get("ref.exiting_exc_path")), classes
+    if stats.get("inject.fired"):
+        classes.add("obs.injected_fault_fired")
+    if stats.get("inject.absorbed"):
+        classes.add("obs.injected_fault_absorbed_by_interpreter")
+    return bool(stats.get("ref.ge2") or stats.get("ref.exiting_exc_path") or stats.get("inject.fired")), classes
+
+
+def mode_cases():
+    from hypothesis import strategies as st
+    step = st.one_of(st.tuples(st.integers(0, 2), st.just("set"), st.sampled_from([True, False, None])),
+                     st.tuples(st.integers(0, 2), st.just("extract"), st.none()),
+                     st.tuples(st.integers(0, 2), st.just("extract"), st.none()))
+    return st.fixed_dictionaries({"nthreads": st.integers(1, 3),
+                                  "steps": st.lists(step.map(list), min_size=2, max_size=14)})
+
+
+def mode_shard(arg):
+    from vlib.driver import Outcome
+    from vlib.hyp import hyp_search
+    from vlib.workers import ALL, WorkerDied, WorkerSet
+    out = Outcome()
+    with WorkerSet(ALL, hooks=False) as ws:
+        def chk(case):
+            viols = []
+            for interp in ALL:
+                try:
+                    res = ws[interp].request(dict(case, op="modes.run"))
+                except WorkerDied as ex:
+                    viols.append({"desc": "interpreter %s died (exit %r)" % (interp, ex.returncode), "interp": interp})
+                    continue
+                out.per_interp[interp] += 1
+                out.extra["mode_checks"] = out.extra.get("mode_checks", 0) + res["stats"]["mode_checks"]
+                if res["obs"]:
+                    viols.append({"desc": "%s on %s: %r" % (res["obs"][0]["kind"], interp, res["obs"][0]), "interp": interp})
+            sets = [s for s in case["steps"] if s[1] == "set"]
+            out.note_case(case, len(sets) >= 2 and case["nthreads"] >= 2, classes=["mode_sequence",
+                          "mode_sequence.threads.%d" % case["nthreads"]], n_eval=len(ALL))
+            return viols
+        fail = hyp_search(mode_cases(), chk, seed=arg["seed"], max_examples=arg["n"], shrink=arg["shrink"])
+        if fail:
+            v = fail["violations"][0]
+            out.violation(v["desc"], fail["case"], v["interp"], flaky=fail["flaky"])
+    return out
 
 
 def run(ctx):
-    return g1check.run(ctx, CFG, quick_n=960, thorough_n=60000, quick_table=300)
+    from vlib.driver import run_shards
+    out = g1check.run(ctx, CFG, quick_n=640, thorough_n=60000, quick_table=300)
+    n = ctx.pick(4, 16)
+    out.merge(run_shards("checks.c20", "mode_shard", [{"seed": ctx.shard_seed("modes", i), "n": ctx.pick(160, 16000) // n,
+                                                       "shrink": not ctx.quick} for i in range(n)]))
+    return out
 
 
 def replay(ctx, data):
+    if "steps" in data["case"]:
+        from vlib.driver import Outcome
+        from vlib.workers import ALL, WorkerSet
+        out = Outcome()
+        with WorkerSet(ALL, hooks=False) as ws:
+            for interp in ALL:
+                res = ws[interp].request(dict(data["case"], op="modes.run"))
+                out.note_case(data["case"], True)
+                if res["obs"]:
+                    out.violation("%s on %s: %r" % (res["obs"][0]["kind"], interp, res["obs"][0]), data["case"], interp)
+        return out
     return g1check.replay(ctx, CFG, data)
